@@ -3750,6 +3750,14 @@ impl Zeroconf {
             return;
         }
         if !repeating {
+            // An earlier search for this host name is taken over: drop its pending
+            // retransmission, so that only one query schedule runs for the name
+            // (and none is left behind when this search ends).
+            let lowercase = hostname.to_lowercase();
+            self.retransmissions.retain(|rerun| {
+                !matches!(&rerun.command,
+                    Command::ResolveHostname(h, _, _, _) if h.to_lowercase() == lowercase)
+            });
             self.add_hostname_resolver(hostname.to_owned(), listener.clone(), timeout);
             // if we already have the records in our cache, just send them
             self.query_cache_for_hostname(&hostname, listener.clone());
